@@ -12,12 +12,12 @@ GenPRMDocs == {"good", "good_path", "res_other", "as_js", "no_as"}
 GenASM4xx == {"404"}
 GenASMHttpFail == {"500"}
 GenASMFlagDocs == {"good"}
-GenASMDocs == {"good", "iss_other", "no_pkce", "tok_http"}
+GenASMDocs == {"good", "iss_other", "iss_port", "no_pkce", "tok_http"}
 GenRegConfigs == {"pre", "dcr", "cimd_pre"}
-GenPreRels == {"unset", "exact", "other"}
+GenPreRels == {"unset", "exact", "other", "port"}
 GenDCROutcomes == {"201", "400"}
 GenAuthStates == {"equal", "different"}
-GenAuthIsses == {"absent", "equal", "different"}
+GenAuthIsses == {"absent", "equal", "different", "port"}
 GenTokenOutcomes == {"good", "400"}
 
 \* The ghost variables are never read by an action, so states that differ only in them have the
